@@ -187,21 +187,34 @@ func runCase(r *vh.Run, c connCase) {
 			all = append(all, b...)
 		}
 		wdone := make(chan struct{})
-		go func() { cl.Send(all, p.PCuts); close(wdone) }()
+		go func() {
+			cl.Send(all, p.PCuts)
+			if p.HalfClose {
+				cl.CloseWrite()
+			}
+			close(wdone)
+		}()
 		sent = len(p.Reqs)
 		out, fp := h1x.AwaitCond(func() bool {
 			q, _ := cl.Quiet()
 			if !q {
 				return false
 			}
+			v := cl.View()
+			if v.Closed {
+				return true
+			}
 			select {
 			case <-wdone:
-				return true
 			default:
-				return cl.View().Closed
+				return false
 			}
+			// an open connection is an observation point only once every
+			// response that is due has arrived (a proxy may legitimately have a
+			// Read pending on the client socket while it waits for the origin)
+			return responsesComplete(v, p, p.Last+1)
 		}, func() string { return cl.Activity() + " " + act() })
-		decided = handleOutcome(r, c, out, fp, &vs, "pipelined")
+		decided = handleStep(r, c, cl, out, fp, &vs, "pipelined")
 	} else {
 		for i := range p.Reqs {
 			if err := cl.Send(p.ReqBytes[i], p.Cuts[i]); err != nil {
@@ -210,8 +223,21 @@ func runCase(r *vh.Run, c connCase) {
 				break
 			}
 			sent = i + 1
-			out, fp := cl.AwaitQuiet(act)
-			if !handleOutcome(r, c, out, fp, &vs, "sequential") {
+			if p.HalfClose && i == p.Last {
+				// the client has nothing more to send: it shuts down its sending
+				// direction and keeps reading
+				cl.CloseWrite()
+			}
+			n := i + 1
+			out, fp := h1x.AwaitCond(func() bool {
+				q, _ := cl.Quiet()
+				if !q {
+					return false
+				}
+				v := cl.View()
+				return v.Closed || responsesComplete(v, p, n)
+			}, func() string { return cl.Activity() + " " + act() })
+			if !handleStep(r, c, cl, out, fp, &vs, "sequential") {
 				decided = false
 				break
 			}
@@ -262,6 +288,18 @@ func runCase(r *vh.Run, c connCase) {
 	if c.Idx == 0 {
 		r.Sample(map[string]interface{}{"case": c, "plan": describe(p)})
 	}
+}
+
+// handleStep is handleOutcome for waits whose condition also asks for the due
+// responses: quiescence with the client at an observation point is not a hang
+// but a missing/incomplete response, which the evaluation reports.
+func handleStep(r *vh.Run, c connCase, cl *h1x.Client, out vh.Outcome, fp string, vs *[]viol, mode string) bool {
+	if out == vh.Stuck {
+		if q, _ := cl.Quiet(); q {
+			return true
+		}
+	}
+	return handleOutcome(r, c, out, fp, vs, mode)
 }
 
 func handleOutcome(r *vh.Run, c connCase, out vh.Outcome, fp string, vs *[]viol, mode string) bool {
@@ -328,8 +366,11 @@ func describe(p *plan) interface{} {
 		if q.HasQuery {
 			t += "?" + q.Query
 		}
+		if i >= 14 && i < len(p.Reqs)-2 {
+			continue // long connections: keep the witness readable
+		}
 		ex = append(ex, fmt.Sprintf("#%d %s %s %s abs=%v hdrs=%d body=%s/%d close=%v early=%q -> %s %d %s/%d hdrs=%d close=%v headCL=%d",
 			i, q.Method, trunc(t, 60), q.Proto, q.Abs, len(q.Headers), q.Framing, len(q.Body), q.Close, q.Early, s.Proto, s.Status, s.Framing, len(s.Body), len(s.Headers), s.Close, s.HeadCL))
 	}
-	return map[string]interface{}{"pipelined": p.Pipelined, "seg_mode": p.SegMode, "must_close_after": p.Last, "exchanges": ex}
+	return map[string]interface{}{"half_close": p.HalfClose, "long": p.Long, "n": len(p.Reqs), "pipelined": p.Pipelined, "seg_mode": p.SegMode, "must_close_after": p.Last, "exchanges": ex}
 }
